@@ -63,3 +63,32 @@ def scalar_value_delayed(ph):
     _delay(ph)
     a = np.asarray(ph, dtype=np.float64)
     return -(a - 3.0) ** 2
+
+
+def first_column_view(x):
+    """a VIEW of the argument (its first column): the caller's array must not be written to"""
+    return x[:, 0] if isinstance(x, np.ndarray) else np.asarray(x, dtype=np.float64)[:, 0]
+
+
+def readonly_sphere(x):
+    """a read-only result (as np.asarray of another framework's array is)"""
+    v = np.sum(np.asarray(x, dtype=np.float64) ** 2, axis=1)
+    v.flags.writeable = False
+    return v
+
+
+class BufferedSphere:
+    """an objective that reuses its output buffer between calls"""
+
+    def __init__(self):
+        self._out = None
+
+    def __call__(self, x):
+        a = np.asarray(x, dtype=np.float64) ** 2
+        if self._out is None or len(self._out) != len(a):
+            self._out = np.empty(len(a), dtype=np.float64)
+        np.sum(a, axis=1, out=self._out)
+        return self._out
+
+
+buffered_sphere = BufferedSphere()
